@@ -29,7 +29,7 @@ func init() {
 			"resolution 0 (alias of 960), resolutions above 32767 (clamped) and more than 65535 tracks are outside the stated domain",
 			"messages are non-empty smf.Message values: channel messages, FF type VLQ payload metas in canonical form, F0/F7 sysex and escape messages",
 		},
-		Require: []string{"bank_reads", "dumps_among_notes", "histories", "smpte_files", "rs_elisions_by_writer", "delta_ge_2^28", "early_close", "add_after_close", "variadic_add", "unclosed_tracks", "tracks_added_again_after_more_adds", "end_of_track_inside_multi_message_add", "events_compared", "norunningstatus_files", "file_roundtrips", "read_modify_write_values", "concurrent_roundtrips", "vlq_width_combinations"},
+		Require: []string{"bank_reads", "dumps_among_notes", "histories", "smpte_files", "rs_elisions_by_writer", "delta_ge_2^28", "early_close", "add_after_close", "variadic_add", "unclosed_tracks", "files_with_more_than_65536_events", "tracks_added_again_after_more_adds", "end_of_track_inside_multi_message_add", "events_compared", "norunningstatus_files", "file_roundtrips", "read_modify_write_values", "concurrent_roundtrips", "vlq_width_combinations"},
 		Run:     runC01,
 	})
 }
@@ -488,6 +488,48 @@ func runC01(c *mon.Ctx) {
 	// last event of a track, before / behind runs of channel messages that the writer compresses with running
 	// status (the bytes a track takes in the file then differ from the sum of its message lengths)
 	dumpLens := []int{4097, 5000, 16384, 70_000, 1 << 20}
+	// big files: hundreds of thousands of events of mixed sizes (two- and three-byte channel messages, short metas)
+	// in one or several tracks; whatever block structure the reader or the writer uses inside (64 KiB and the like),
+	// every event comes back
+	c.Each("many-events", c.N(6, 60), func(i int64, r *mon.Rand) {
+		a := &apiValue{sh: &ref.File{Format: 1, Division: 960}}
+		a.s = smf.NewSMF1()
+		nt := r.Pick(1, 1, 2, 5)
+		total := r.Pick(70_000, 120_000, 300_000)
+		lead := int(i) % 7 // leading two-byte messages shift every later offset by two
+		a.log("NewSMF1(); %d tracks with %d events in all, %d program changes first", nt, total, lead)
+		for t := 0; t < nt; t++ {
+			var tr smf.Track
+			var sh []ref.Ev
+			add := func(d uint32, m []byte) {
+				tr.Add(d, m)
+				sh = append(sh, ref.Ev{Delta: d, Msg: append([]byte(nil), m...)})
+			}
+			for k := 0; k < lead && t == 0; k++ {
+				add(0, []byte{0xC0 | byte(k), byte(k + 1)})
+			}
+			for k := 0; k < total/nt; k++ {
+				switch x := r.Intn(40); {
+				case x == 0:
+					add(uint32(r.Intn(3)), []byte{0xC0 | byte(r.Intn(16)), byte(r.Intn(128))})
+				case x == 1:
+					add(1, []byte{0xD0 | byte(r.Intn(16)), byte(r.Intn(128))})
+				case x == 2 && k%50 == 0:
+					add(0, ref.Meta(0x06, []byte{byte(k), byte(k >> 8)}))
+				default:
+					add(uint32(k&3), []byte{0x90 | byte(k&15), byte(k & 127), byte(k >> 7 & 127)})
+				}
+			}
+			tr.Close(uint32(t))
+			sh = append(sh, ref.Ev{Delta: uint32(t), Msg: ref.EOT})
+			a.s.Add(tr)
+			a.sh.Tracks = append(a.sh.Tracks, sh)
+		}
+		a.s.TimeFormat = smf.MetricTicks(960)
+		c01Check(c, a, fmt.Sprintf("many-events %d", i))
+		c.Count("files_with_more_than_65536_events", 1)
+	})
+
 	c.Each("dump-among-notes", int64(len(dumpLens)*6), func(i int64, r *mon.Rand) {
 		n := dumpLens[int(i)%len(dumpLens)]
 		pos := int(i) / len(dumpLens) % 3 // 0 first, 1 middle, 2 last
